@@ -515,6 +515,8 @@ type runState struct {
 	stop     bool
 	done     bool
 	seenV    map[string]int
+	nViol    int
+	nFuel    int
 	seenP    map[string]int
 	serving  map[*workerProc]bool
 }
@@ -539,12 +541,22 @@ func (r *runState) absorb(rep *replyMsg) {
 		case interp.KAssert, interp.KPanic, interp.KRuntime, interp.KDeadlock, interp.KRace:
 			key := x.Kind + "|" + x.Msg + "|" + x.Where
 			r.seenV[key]++
+			r.nViol++
+			if r.nViol >= 600 && !r.stop {
+				r.stop, sum.Why = true, "stopped after 600 violating paths"
+			}
 			if r.seenV[key] <= 6 && len(sum.Violations) < 2000 {
 				sum.Violations = append(sum.Violations, x)
 			}
 		default:
 			key := x.Kind + "|" + firstLine(x.Msg)
 			r.seenP[key]++
+			if x.Kind == interp.KFuel {
+				r.nFuel++
+				if r.nFuel >= 40 && !r.stop {
+					r.stop, sum.Why = true, "stopped after 40 paths that exhausted the instruction budget"
+				}
+			}
 			if r.seenP[key] <= 3 && len(sum.Problems) < 200 {
 				sum.Problems = append(sum.Problems, x)
 			}
